@@ -11,7 +11,7 @@ type V = ValueType;
 
 const CONV_W: [&[f64]; 4] = [&[1.0, 2.0, 3.0], &[0.5, 1.0, 2.0, 1.0], &[1.0, 1.0], &[2.0, -1.0, 1.0]];
 fn vol_at(t: u64) -> V {
-	[1.0, 4.0, 2.0][(t % 3) as usize]
+	[1.0, 4.0, 0.0, 2.0][(t % 4) as usize]
 }
 /// VWMA fed (price, volume) with a fixed volume cycle, seen as a value -> value subject
 struct VwmaSubj {
